@@ -15,6 +15,7 @@ cd $REPO
 if [ -n "$(git status --short)" ]; then echo "/repo not clean"; exit 4; fi
 if ! git apply --check $OUT/patch.diff 2>/dev/null; then echo "$NAME: PATCH DOES NOT APPLY" | tee $OUT/result.txt; exit 3; fi
 git apply $OUT/patch.diff
+NEWFILES=$(git status --short | grep "^??" | grep -v target | wc -l)
 IDS=$(python3 - "$@" <<PY
 import sys, json, subprocess
 sys.path.insert(0, '$VERIF/tools')
@@ -37,5 +38,5 @@ for C in $IDS; do
   RES="$RES $C=$R"
 done
 cp $EVBAK/*.json $VERIF/evidence/ 2>/dev/null; rm -rf $EVBAK
-git -C $REPO checkout -- . ; git -C $REPO status --short | head -3
+git -C $REPO checkout -- . ; git -C $REPO clean -fdq -e target ; git -C $REPO status --short | head -3
 echo "checks:$RES" | tee $OUT/result.txt
